@@ -68,7 +68,7 @@ func MonPanic(res *fw.Result, o *run.Obs) bool {
 func MonC01(res *fw.Result, o *run.Obs) {
 	orb := world.OrbiterAddr().String()
 	dust := world.DustAddr().String()
-	isOrb := o.T.RawData == nil && IsOrbiterReceiver(o.T.Receiver)
+	isOrb := IsOrbiterReceiver(o.T.EffectiveReceiver())
 	if o.Res.Panic != nil {
 		return // C14's business
 	}
@@ -103,6 +103,9 @@ func MonC01(res *fw.Result, o *run.Obs) {
 			// R2: what left the orbiter account in the delivered denom is exactly what the dust
 			// collector gained (pre-existing coins); nothing of the delivered coin stays.
 			d := o.T.Denom
+			if o.T.RawData != nil || o.T.RawDenom != nil {
+				return // the delivered denomination is not known to the monitor
+			}
 			sum := new(big.Int).Add(o.Delta.Of(orb, d), o.Delta.Of(dust, d))
 			if sum.Sign() != 0 || o.After.Get(orb, d).Sign() != 0 {
 				if o.Delta.Of(orb, d).Sign() <= 0 { // growth already reported by R1
@@ -187,7 +190,7 @@ func ExpectedDelta(o *run.Obs, fr model.FeeResult) *world.Delta {
 // It returns false when the precondition (success, orbiter receiver, spec, model not refusing)
 // does not hold.
 func MonC02(res *fw.Result, o *run.Obs) bool {
-	if !o.Success() || o.T.Spec == nil || !IsOrbiterReceiver(o.T.Receiver) || o.T.RawDenom != nil {
+	if !o.Success() || o.T.Spec == nil || o.T.RawData != nil || !IsOrbiterReceiver(o.T.Receiver) || o.T.RawDenom != nil {
 		return false
 	}
 	a, ok := new(big.Int).SetString(o.T.Amount, 10)
@@ -285,7 +288,7 @@ func MonC12(res *fw.Result, o *run.Obs) bool {
 	if o.Res.Panic != nil {
 		return false
 	}
-	if !o.Success() || !IsOrbiterReceiver(o.T.Receiver) || o.T.RawData != nil {
+	if !o.Success() || !IsOrbiterReceiver(o.T.EffectiveReceiver()) {
 		if len(got) != 0 {
 			w := wit(o)
 			w.Stats = got
@@ -294,7 +297,7 @@ func MonC12(res *fw.Result, o *run.Obs) bool {
 		}
 		return false
 	}
-	if o.T.Spec == nil || o.T.RawDenom != nil {
+	if o.T.Spec == nil || o.T.RawDenom != nil || o.T.RawData != nil {
 		return false
 	}
 	a, ok := new(big.Int).SetString(o.T.Amount, 10)
